@@ -532,3 +532,45 @@ func verifClientStreamRaw(key *shadowsocks.EncryptionKey, chunks ...[]byte) []by
 	}
 	return out
 }
+
+// the target answers in full and goes away while the client is still uploading; the client sends
+// two more chunks and then ends its stream. The answer is delivered intact, and the client's
+// socket is not closed over upload bytes nobody read (the kernel would reset the connection and
+// the client would lose the part of the answer it had not read yet)
+func VH_C02_target_hangs_up_during_upload() {
+	cl, specs, entries := verifMakeList(1, 1, false)
+	key := verifKey(specs[0].cipher, verifSecrets[specs[0].secret])
+	first := append([]byte{1, 93, 184, 216, 34, 0, 80}, verifBytes("c", 2)...)
+	more := 1 + verifChoice("more-chunks", 2)
+	chunks := [][]byte{first}
+	for i := 0; i < more; i++ {
+		chunks = append(chunks, verifBytes("c", 2))
+	}
+	stream := verifClientStream(key, chunks...)
+	verifAssume(!entries[0].SaltGenerator.IsServerSalt(stream[:key.SaltSize()]))
+	conn := &verifStreamConn{name: "client", remote: &net.TCPAddr{IP: net.IPv4(203, 0, 113, 5), Port: 50000}}
+	// the chunks arrive one by one
+	cut := key.SaltSize() + 2 + 16 + len(first) + 16
+	conn.reads = []verifSRead{{data: stream[:cut]}}
+	for i := 0; i < more; i++ {
+		conn.reads = append(conn.reads, verifSRead{data: stream[cut : cut+2+16+2+16]})
+		cut += 2 + 16 + 2 + 16
+	}
+	target := &verifStreamConn{name: "target", remote: &net.TCPAddr{IP: net.IPv4(93, 184, 216, 34), Port: 80}}
+	back := verifBytes("t", 3)
+	target.reads = []verifSRead{{data: back}}
+	target.writeBrokenFrom = 2 // it took the first chunk, answered and closed
+	h := NewStreamHandler(NewShadowsocksStreamAuthenticator(cl, nil, nil, nil), tcpReadTimeout)
+	h.SetTargetDialer(&verifDialer{conn: target})
+	m := &verifTCPMetrics{}
+	h.Handle(context.Background(), conn, m)
+	verifQuiesce()
+	r := shadowsocks.NewReader(bytes.NewReader(conn.written), key)
+	got, err := io.ReadAll(r)
+	verifAssert("C02.target-hangup.answer-intact", err == nil && len(got) == len(back) && verifBytesEq(got, back))
+	verifAssert("C02.target-hangup.client-closed-once", conn.closed == 1)
+	verifAssert("C02.target-hangup.client-not-reset-over-unread-upload", conn.closedOverUnread == 0)
+	verifAssert("C15.target-hangup.closed-once", len(m.closed) == 1)
+	verifAssert("C18.target-hangup.no-goroutine-left", verifBlockedIn("proxyConnection") == 0)
+	verifReach("C02.target-hangup.done", true)
+}
